@@ -15,7 +15,7 @@
 //!   trapz/error-bound     |trapz − I| ≤ |b−a|h²/12·max|f''|·(1+1e-9) + R
 //!   romberg/tolerance     |romberg(τ, budget) − I| ≤ 100·τ·max(1,|I|) + R   (resolved intervals only)
 //!   samples/value         |trapezoid(y,x,dx) − Σ(y_i+y_{i−1})/2·Δx_i (dd)| ≤ 8(n+8)ε Σ(|y_i|+|y_{i−1}|)/2·|Δx_i|
-//!   samples/reject        different lengths, or both x and dx ⇒ panic
+//!   samples/reject        different lengths, or both x and dx: behaviour recorded (not in the statement)
 //!
 //! tol_poly = 8·(N + 4·deg + 16)·ε·|b−a|·Σ|c_j|M^j, M = max(|a|,|b|): summation of N terms (≤ Nε), the
 //! closure's own Horner rounding (≤ 2·deg·ε), node rounding |δx| ≤ 4εM propagated through f' (≤ 4·deg·ε),
@@ -1018,13 +1018,13 @@ pub fn check_reject(ctx: &mut Ctx, c: &RejCase) -> R {
     let y: Vec<f64> = (0..c.ny).map(|i| 1.0 + (i % 7) as f64).collect();
     let x: Vec<f64> = (0..nx).map(|i| i as f64 * 0.5).collect();
     let dx = if c.dx { Some(0.5) } else { None };
+    // Recorded, not asserted: the statement says nothing about invalid sample arrays (an implementation that, like
+    // numpy, lets x take precedence over dx still integrates the interpolant of the samples it was given).
     match catch(|| trapezoid(&y, Some(&x), dx)) {
-        Err(_) => Ok(()),
-        Ok(v) => fail(
-            format!("C07/samples/reject/{}", class),
-            format!("trapezoid with {} ordinates, {} abscissae and dx = {:?} returned {:e} instead of panicking", c.ny, nx, dx, v),
-        ),
+        Err(_) => ctx.label(sub, &format!("{}:panics", class)),
+        Ok(_) => ctx.label(sub, &format!("{}:returns-a-value", class)),
     }
+    Ok(())
 }
 
 // ------------------------------------------------------------------------------------------------
@@ -1412,7 +1412,7 @@ Non-trivial: degree >= 1 or non-polynomial integrand, and a != b; distinct by (s
         "romberg/tolerance domain: catalogue members on intervals with at most one interior extremum (half a period for trigonometric members) and no longer than twice the local smoothness scale at both ends; aliasing of adaptive stopping on unresolved integrands is outside the statement (DESIGN section 4/5)".into(),
         "romberg/tolerance uses budgets 10..20: the statement's error clause presupposes a budget that lets the tolerance be reached".into(),
         "romberg with eps = 0 never stops early (strict < comparison), so k levels means the full k-level tableau".into(),
-        "samples/reject (length mismatch, x together with dx must panic) follows DESIGN.md; the property statement itself is silent on invalid sample arrays".into(),
+        "samples/reject (length mismatch, x together with dx) only records whether the call panics: the property statement is silent on invalid sample arrays, so nothing is asserted (this was an assertion until a property-preserving change that follows numpy's convention showed it to be beyond the statement)".into(),
     ];
     if let Err(msg) = self_test() {
         report(&format!("INCONCLUSIVE property=C07 catalogue self-test failed: {}", msg));
